@@ -8,7 +8,7 @@ BIN="$VERIF/bin/pkocheck"
 need=0
 [ -x "$BIN" ] || need=1
 if [ $need -eq 0 ]; then
-  for f in "$VERIF"/checker/*.go "$VERIF"/checker/go.mod; do
+  for f in "$VERIF"/checker/*.go "$VERIF"/checker/*.json "$VERIF"/checker/go.mod; do
     [ "$f" -nt "$BIN" ] && need=1 && break
   done
 fi
